@@ -10,7 +10,7 @@ pub struct Shell { pub exit_on_error: bool, pub previous_status: i32 }
 
 // ---- pest parse tree, reduced to what the runners look at: the text of a node, its rule, its children (all uninterpreted) ----
 #[derive(PartialEq, Eq, Structural, Clone, Copy)]
-pub enum Rule { CMD, EXP_IF, EXP_FOR, EXP_WHILE, EXP_BODY, FOR_HEAD, OTHER }
+pub enum Rule { CMD, EXP_IF, EXP_FOR, EXP_WHILE, EXP_BODY, FOR_HEAD, IF_HEAD, IF_ELSEIF_HEAD, WHILE_HEAD, KW_ELSE, OTHER }
 pub struct VxPair { pub id: int }
 pub uninterp spec fn pair_text(p: VxPair) -> Seq<char>;
 pub uninterp spec fn pair_rule(p: VxPair) -> Rule;
@@ -76,9 +76,20 @@ pub fn vx_eprintln(s: &str) { }
 #[verifier::external_body]
 pub fn vx_eprint_err(e: &VxParseErr) { }
 
+// ---- run_exp_test_br: the branch of an if / else-if / while is entered iff the LAST pipeline of its test line succeeded (or it is the else branch) ----
+pub ghost struct TestLog { pub pass: bool }
+#[verifier::external_body]
+pub proof fn note_test(tracked tl: &mut TestLog, ok: bool) ensures final(tl).pass == (old(tl).pass || ok) { unimplemented!() }
+// the TEST child of an IF_HEAD / IF_ELSEIF_HEAD / WHILE_HEAD node (first child by the grammar: assumed)
+#[verifier::external_body]
+pub fn vx_head_test(head: VxPair) -> (r: VxPair) { unimplemented!() }
+// grammar: a branch node has only heads, `else` and a body as children (assumed)
+#[verifier::external_body]
+pub fn vx_unreachable_by_grammar() { }
 //@FN stopped_by_error
 //@FN run_exp_while
 //@FN run_exp
+//@FN run_exp_test_br_real
 //@FN run_lines
 ''' + common.TAIL
 
@@ -92,7 +103,7 @@ RW = [
     Rw('&args[1..]', 'vx_args_tail(args)', required=False, rule='R12', why='slice from index 1: requires at least the script / function name in args'),
     Rw(r'println_stderr!\("([^"]*)"\);', r'vx_eprintln("\1");', regex=True, required=False, rule='R3', why='diagnostic output'),
     Rw(r'println_stderr!\("syntax error: \{:\?\}", e\);', 'vx_eprint_err(&e);', regex=True, required=False, rule='R3', why='diagnostic output'),
-    Rw('cr_list.last()', 'vx_slice_last(cr_list)', required=False, rule='R12', why='<[T]>::last through a shim with the std contract'),
+    Rw(r'(?<![_A-Za-z0-9])cr_list\.last\(\)', 'vx_slice_last(cr_list)', regex=True, required=False, rule='R12', why='<[T]>::last through a shim with the std contract'),
 ]
 
 stopped_by_error = Fn(S, 'stopped_by_error', ret='r', pre_rewrites=RW,
@@ -150,7 +161,25 @@ run_lines = Fn(S, 'run_lines', ret='r', pre_rewrites=RW,
            'before-text:if stopped_by_error(sh, &cr_list) {': 'note_check(lg, stop_spec(cr_list@, *sh));'},
 )
 
-UNIT = Unit('U-SCRIPT', TEMPLATE, fns=[stopped_by_error, run_exp_while, run_exp, run_lines],
+test_br = Fn(S, 'run_exp_test_br', rename='run_exp_test_br_real', ret='r',
+    pre_rewrites=RW + [
+        Rw(r'let pairs_test: Vec<VxPair> =[\s\S]*?let pair_test = &pairs_test\[0\];', 'let pair_test = vx_head_test(pair);', regex=True, rule='R10',
+           why='the TEST child of a head node (collect + index 0): through a shim, its existence is a fact of the grammar'),
+        Rw('unreachable!();', 'vx_unreachable_by_grammar();', rule='R10', why='unreachable by the grammar (a branch has only heads, else and a body): assumed'),
+        Rw('_cr_list.last()', 'vx_slice_last(_cr_list.as_slice())', required=False, rule='R12'),
+    ],
+    add_params='Tracked(tl): Tracked<&mut TestLog>',
+    ghost_args={'run_exp': 'Tracked(&mut lg2)'},
+    requires=[('C05.pre.test_br.args', 'args@.len() >= 1'), ('C03+C15.pre.test_br.fresh', '!old(tl).pass')],
+    let_types={'cr_list': 'Vec<CommandResult>'},
+    loop_kinds={0: 'value', (0, 'clone'): 'vx_clone_pair(&{})'},
+    ensures=[('C03+C15.test_br.a_branch_is_taken_iff_the_last_pipeline_of_a_test_of_it_succeeded_or_it_is_the_else_branch', 'r.1 == final(tl).pass')],
+    loops={0: Loop(invariant=[('C03+C15.inv.test_br.flag', 'test_pass == tl.pass && args@.len() >= 1')])},
+    hints={'after-call:run_command_line': 'note_test(tl, _cr_list@.len() > 0 && _cr_list@.last().status == 0);',
+           'before-text-all:test_pass = true;': 'note_test(tl, true);',
+           'before-call:run_exp': 'RAW: let tracked mut lg2 = new_log();'},
+)
+UNIT = Unit('U-SCRIPT', TEMPLATE, fns=[stopped_by_error, run_exp_while, run_exp, test_br, run_lines],
             types=[TypeItem('src/types.rs', 'struct', 'CommandResult')], props=('C15', 'C05'))
 TRUSTED = common.TRUSTED_STR + [
     'the pest parse tree is opaque: the text, rule and children of a node are uninterpreted (the grammar locust.pest is outside the verifier); '
